@@ -10,6 +10,8 @@
 //   - all 14 encodings (8 canonical + 6 non-canonical) of the 8 small-order points as public key,
 //     each with (a) the genuine proof of another key and (b) 8 FORGED proofs that satisfy the
 //     ECVRF verification equation for that key (so that the small-order test is what rejects them),
+//   - long messages (lengths around 64/128/256-byte buffers and SHA-512 block / padding limits): every
+//     message bit, extend, truncate; every length 0..300 once with first/last bit, extend, truncate,
 //   - thorough: all 204 480 two-bit flips of the proof for one triple per seed.
 // Oracle: only the untouched triple verifies (the property's truth table). The forged proofs are
 // built with an own hash-to-curve (Elligator2 over math/big, written from draft-irtf-cfrg-vrf-03
@@ -348,6 +350,12 @@ func derive(tag string, seed int64, i, n int) []byte {
 	return out[:n]
 }
 
+// longLens: message lengths around 64/128/256-byte buffers and around the SHA-512 block (128) and padding
+// (111) limits of the 34-byte-prefixed hash-to-curve input (77/78, 94/95, 221/222).
+var longLens = []int{63, 64, 65, 77, 78, 93, 94, 95, 96, 127, 128, 129, 200, 221, 222, 223, 255, 256, 257}
+
+const sweepMax = 300
+
 func main() {
 	c := vlib.New("C38", "exploration")
 	if c.Replay != "" {
@@ -396,14 +404,41 @@ func main() {
 		if c.Thorough() {
 			msgs = append(msgs, derive("m200", c.Seed, si, 200))
 		}
+		// long messages: lengths around every buffer / hash-block boundary of the hash-to-curve input
+		// (suite || 0x01 || key || message = 34 + len; SHA-512 block 128, padding limit 111): only the
+		// message is mutated for these (every bit, extend, truncate); proof/key/output flips stay on the short ones
+		nFull := len(msgs)
+		for _, n := range longLens {
+			msgs = append(msgs, derive(fmt.Sprintf("long%d", n), c.Seed, si, n))
+		}
+		if si == 0 {
+			// every length 0..sweepMax once: genuine, first/last bit, extend, truncate
+			for n := 0; n <= sweepMax; n++ {
+				msg := derive("sweep", c.Seed, n, n)
+				proof, out, err := vrf.Prove(sk, msg)
+				if err != nil {
+					c.Violation("Prove|error", fmt.Sprintf("sweep len %d: %v", n, err), map[string]any{"seed": hex.EncodeToString(seed), "msg": hex.EncodeToString(msg)})
+					continue
+				}
+				tg := fmt.Sprintf("sweep:msglen=%d", n)
+				cases = append(cases, mk("genuine:"+tg, "genuine-rejected", pk, proof, msg, out, true))
+				cases = append(cases, mk("msgext0:"+tg, "accepts-message-change", pk, proof, append(append([]byte{}, msg...), 0), out, false))
+				if n > 0 {
+					cases = append(cases, mk("msgbit-first:"+tg, "accepts-message-change", pk, proof, flip(msg, 0), out, false))
+					cases = append(cases, mk("msgbit-last:"+tg, "accepts-message-change", pk, proof, flip(msg, n*8-1), out, false))
+					cases = append(cases, mk("msgtrunc:"+tg, "accepts-message-change", pk, proof, msg[:n-1], out, false))
+				}
+			}
+		}
 		for mi, msg := range msgs {
+			full := mi < nFull
 			proof, out, err := vrf.Prove(sk, msg)
 			if err != nil {
 				c.Violation("Prove|error", fmt.Sprintf("seed %d msg %d: %v", si, mi, err), map[string]any{"seed": hex.EncodeToString(seed), "msg": hex.EncodeToString(msg)})
 				continue
 			}
 			tg := fmt.Sprintf("msglen=%d", len(msg))
-			if si == 0 {
+			if si == 0 && full {
 				c.Sample(map[string]any{"pk": hex.EncodeToString(pk), "msg": vlib.Hex(msg), "proof": hex.EncodeToString(proof), "output": hex.EncodeToString(out)})
 			}
 			if mi == 2 {
@@ -422,10 +457,10 @@ func main() {
 			}
 
 			cases = append(cases, mk("genuine:"+tg, "genuine-rejected", pk, proof, msg, out, true))
-			for b := 0; b < 640; b++ {
+			for b := 0; full && b < 640; b++ {
 				cases = append(cases, mk(fmt.Sprintf("proofbit:%s:b=%d", tg, b), "accepts-proof-bit-flip|"+region(b), pk, flip(proof, b), msg, out, false))
 			}
-			for b := 0; b < 256; b++ {
+			for b := 0; full && b < 256; b++ {
 				cases = append(cases, mk(fmt.Sprintf("pkbit:%s:b=%d", tg, b), "accepts-public-key-bit-flip", flip(pk, b), proof, msg, out, false))
 			}
 			for b := 0; b < len(msg)*8; b++ {
@@ -436,6 +471,9 @@ func main() {
 			if len(msg) > 0 {
 				cases = append(cases, mk("msgtrunc:"+tg, "accepts-message-change", pk, proof, msg[:len(msg)-1], out, false))
 				cases = append(cases, mk("msgtrunc-front:"+tg, "accepts-message-change", pk, proof, msg[1:], out, false))
+			}
+			if !full {
+				continue
 			}
 			for b := 0; b < 512; b++ {
 				cases = append(cases, mk(fmt.Sprintf("outbit:%s:b=%d", tg, b), "wrong-expected-output", pk, proof, msg, flip(out, b), false))
